@@ -558,7 +558,7 @@ func GetParentForEntry(storer gitstore.Storer, entry Entry) (Entry, error) {
 	}
 
 	parentID = parentIDs[0]
-	parentEntry, err := GetEntry(storer, parentID)
+	parentEntry, err := loadExistingEntry(storer, parentID)
 	if err != nil {
 		return nil, err
 	}
@@ -648,7 +648,23 @@ func GetLatestEntry(storer gitstore.Storer) (Entry, error) {
 		return nil, err
 	}
 
-	return GetEntry(storer, commitID)
+	return loadExistingEntry(storer, commitID)
+}
+
+// loadExistingEntry loads an entry the RSL itself names, as its tip or as the
+// parent of another entry. Such an entry exists: failing to read it (for
+// example because of a storage error) must not be mistaken for the RSL having
+// no such entry, which callers take to mean an empty log or the start of the
+// log.
+func loadExistingEntry(storer gitstore.Storer, entryID githash.Hash) (Entry, error) {
+	entry, err := GetEntry(storer, entryID)
+	if err != nil {
+		if errors.Is(err, ErrRSLEntryNotFound) {
+			return nil, fmt.Errorf("unable to load RSL entry '%s': %s", entryID.String(), err.Error())
+		}
+		return nil, err
+	}
+	return entry, nil
 }
 
 // GetLatestReferenceUpdaterEntry returns the latest reference updater entry in
